@@ -172,6 +172,113 @@ def instances(ex, addrs_halmos, limit=4000):
     return out
 
 
+class CexSeam:
+    """records the execution state of every potential violation handed to the solver (seam: CounterexampleHandler.handle_assertion_violation
+    rebound in the harness process), so that a reported counterexample can be turned back into a concrete call sequence"""
+
+    def __init__(self):
+        self.installed = False
+        self.rec = None
+        self.models = []
+
+    def path_of(self, model):
+        for mm, sig, pid in self.models:
+            if mm is model:
+                return pid
+        return None
+
+    def install(self):
+        if self.installed:
+            return
+        import halmos.__main__ as M
+
+        me = self
+        orig = M.CounterexampleHandler.handle_assertion_violation
+
+        def handle(h, path_id, ex, panic_found, description=None):
+            if me.rec is not None and not h.is_probe:
+                me.rec[(h.ctx.info.sig, path_id)] = ex
+            return orig(h, path_id, ex, panic_found, description)
+
+        orig_cb = M.CounterexampleHandler._solve_end_to_end_callback
+
+        def cb(h, future, ex, path_ctx, description):
+            # which path a reported model belongs to (PotentialModel carries no path id)
+            if me.rec is not None and not h.is_probe:
+                try:
+                    out = future.result()
+                    if out.model is not None:
+                        me.models.append((out.model, h.ctx.info.sig, out.path_id))
+                except Exception:
+                    pass
+            return orig_cb(h, future, ex=ex, path_ctx=path_ctx, description=description)
+
+        M.CounterexampleHandler.handle_assertion_violation = handle
+        M.CounterexampleHandler._solve_end_to_end_callback = cb
+        self.installed = True
+
+
+cexseam = CexSeam()
+TS_NAME = __import__("re").compile(r"^halmos_block_timestamp_depth(\d+)_")
+
+
+def ground(term, model):
+    """value of a halmos term under a model (name -> int); symbols the model does not mention are unconstrained: 0"""
+    if isinstance(term, (bytes, int)):
+        return term
+    if hasattr(term, "as_z3"):
+        term = term.as_z3()
+    sub = []
+    for nm, sym in free_syms([term]).items():
+        sub.append((sym, z3.BitVecVal(model.get(nm, 0), sym.size())))
+    g = z3.simplify(z3.substitute(term, *sub)) if sub else z3.simplify(term)
+    if not z3.is_bv_value(g):
+        raise ValueError(f"cannot ground {str(term)[:80]}")
+    return g.as_long()
+
+
+def replay_counterexample(P, sig, ex, model, panic_codes=(1,)):
+    """executes the call sequence of a reported invariant counterexample, with the model's values, on the reference EVM and
+    then the invariant; returns None if the invariant breaks, else a description of what happened instead"""
+    w = e2e.ref_deploy(P.test, extra=None)
+    o = e2e.ref_call(w, "setUp()")
+    if o.kind != "success":
+        return f"reference setUp failed: {o.kind}"
+    # the timeline halmos uses: call k runs at the time chosen after call k-1 (the first at setUp's time); the invariant at the last one
+    ts = {}
+    for c in ex.path.conditions:
+        for nm in free_syms([c]):
+            m = TS_NAME.match(nm)
+            if m:
+                ts[int(m.group(1))] = nm
+    now = w.block["timestamp"]
+    steps = []
+    for k, call in enumerate(ex.call_sequence, start=1):
+        msg = call.message
+        tgt = ground(msg.target, model)
+        caller = ground(msg.caller, model)
+        value = ground(msg.value, model)
+        d = msg.data.unwrap()
+        if not isinstance(d, bytes):
+            n = d.size() // 8
+            d = ground(d, model).to_bytes(n, "big")
+        w.block["timestamp"] = now
+        r = e2e.ref_call(w, d, panic_codes=panic_codes, value=value, caller=caller, origin=caller, target=tgt)
+        steps.append(f"{caller:#x}->{tgt:#x}.{d[:4].hex()}({d[4:].hex()[:16]}) value={value} t={now}: {r.kind}")
+        if r.kind != "success":
+            return f"call {k} of the reported sequence does not succeed on the EVM: {steps}"
+        if k in ts and ts[k] in model:
+            nxt = model[ts[k]]
+            if nxt < now:
+                return f"the counterexample makes block.timestamp decrease after call {k}: {now} -> {nxt}"
+            now = nxt
+    w.block["timestamp"] = now
+    r = e2e.ref_call(w, sig, panic_codes=panic_codes)
+    if r.kind != "fail":
+        return f"after the reported sequence {steps} the invariant {sig} does not fail on the EVM ({r.kind})"
+    return None
+
+
 def check_project(acc, p):
     desc, depth = p["desc"], p["depth"]
     name = name_of(p)
@@ -179,7 +286,13 @@ def check_project(acc, p):
     P = invgen.Project(desc)
     sigs = P.invariant_sigs()
     acc.count("projects")
-    rr = e2e.run_contract(P.test, funsigs=sigs, options={"invariant_depth": depth, "solver_timeout_assertion": "10s"}, others=P.targets)
+    cexseam.install()
+    cexseam.rec = {}
+    cexseam.models = []
+    try:
+        rr = e2e.run_contract(P.test, funsigs=sigs, options={"invariant_depth": depth, "solver_timeout_assertion": "10s"}, others=P.targets)
+    finally:
+        recorded, cexseam.rec = cexseam.rec, None
     if rr.exception is not None or len(rr.results) != len(sigs):
         acc.violation(f"no-results:{name}", f"{name}: run_contract gave no results: {rr.exception!r} {rr.logs[-2:]} {rr.stdout[-300:]}", case)
         return
@@ -207,6 +320,21 @@ def check_project(acc, p):
         if not ref_broken and r.exitcode == 1 and any(m.is_valid for m in (r.models or [])):
             acc.violation(f"spurious:{inv}:{name}", f"{name}: halmos reports FAIL with a valid counterexample for {sig} ({inv}) but no sequence of <= {depth} calls over the reference domain breaks it", case)
             return
+        # every counterexample marked valid comes with a call sequence that reproduces the break
+        for m in r.models or []:
+            pid = cexseam.path_of(m)
+            if not m.is_valid or (sig, pid) not in recorded:
+                continue
+            acc.count("counterexample_sequences_replayed")
+            try:
+                bad = replay_counterexample(P, sig, recorded[(sig, pid)], {k2: v.value for k2, v in m.model.items()})
+            except ValueError as e:
+                acc.count("counterexample_sequences_not_groundable")
+                acc.notes.append(f"{name}: {e}")
+                continue
+            if bad:
+                acc.violation(f"cex-replay:{inv}:{name}", f"{name}: the counterexample reported for {sig} ({inv}) does not reproduce: {bad}"[:900], case)
+                return
     # ---- probes (assertion inside a target)
     pf = ref["probe_fail_depth"]
     if pf is not None and pf <= depth:
@@ -315,6 +443,7 @@ def coverage(tier, merged):
         "explored_calls_checked_against_filters": c.get("calls_checked", 0),
         "projects_with_reachable_target_assertion": c.get("projects_with_reachable_target_assertion", 0),
         "exhaustive": not merged["capped"],
+        "counterexample_call_sequences_replayed_on_reference": c.get("counterexample_sequences_replayed", 0),
         "rule": "states = target states reached by the reference BFS; transitions = calls in halmos's cached frontier call sequences checked against the filters; traces validated = invariant tests whose verdict "
                 "was compared with the reference BFS over all call sequences up to the depth",
     }
